@@ -24,6 +24,17 @@ func newRootGeneratorSimple(r io.Reader) *rootGeneratorSimple {
 	}
 }
 
+// readerErrOr is called with the error of a row that could not be parsed. If that row was the last one the scanner
+// could deliver because the reader failed (the row may be truncated), the reader's error is the one to report.
+func (rg *rootGeneratorSimple) readerErrOr(err error) error {
+	if !rg.scanner.Scan() {
+		if rerr := rg.scanner.Err(); rerr != nil {
+			return rerr
+		}
+	}
+	return err
+}
+
 func (rg *rootGeneratorSimple) generate() ([]*Node, error) {
 	var (
 		stack *stack
@@ -33,7 +44,7 @@ func (rg *rootGeneratorSimple) generate() ([]*Node, error) {
 	for rg.scanner.Scan() {
 		currentNode, err := rg.nodeGenerator.generate(rg.scanner.Text(), rg.counter.next())
 		if err != nil {
-			return nil, err
+			return nil, rg.readerErrOr(err)
 		}
 		if currentNode == nil {
 			continue
@@ -70,7 +81,7 @@ func (rg *rootGeneratorSimple) generateIter() func(yield func(*Node, error) bool
 		for rg.scanner.Scan() {
 			currentNode, err := rg.nodeGenerator.generate(rg.scanner.Text(), rg.counter.next())
 			if err != nil {
-				yield(nil, err)
+				yield(nil, rg.readerErrOr(err))
 				return
 			}
 			if currentNode == nil {
